@@ -89,9 +89,11 @@ func (c *Ctx) loadPure(loc *Loc) Val {
 	}
 	if len(comps) == 1 {
 		v := scalar(get(comps[0]), comps[0].sort, loc.T)
+		fe.noteRefHeap(loc)
 		return v
 	}
 	v := Val{Kind: VSlice, Arr: get(comps[0]), Off: get(comps[1]), Len: get(comps[2]), Cap: get(comps[3]), GoT: loc.T}
+	fe.noteRefHeap(loc)
 	if c.qdepth == 0 {
 		c.side = append(c.side, fmt.Sprintf("(and (<= 0 %s) (<= 0 %s) (<= %s %s) (<= %s 281474976710656))", v.Off, v.Len, v.Len, v.Cap, v.Cap))
 	}
@@ -154,7 +156,8 @@ func (c *Ctx) eval(e *Expr) Val {
 				saved[qv.Name] = nil
 			}
 			sort, gt := c.qvarSort(qv.Type)
-			nm := "q_" + qv.Name
+			c.fe.qcount++
+			nm := fmt.Sprintf("q_%s_%d", qv.Name, c.fe.qcount) // unique: nested quantifiers must not capture
 			c.binds[qv.Name] = scalar(nm, sort, gt)
 			decls = append(decls, "("+nm+" "+sort+")")
 		}
@@ -794,6 +797,13 @@ func (c *Ctx) evalCall(e *Expr) Val {
 			base = c.freshBase
 		}
 		return scalar("(> "+t+" "+base+")", SBool, boolT)
+	case "allocated": // allocated(x): x is an object that exists now (not a future allocation)
+		x := c.eval(e.Kids[0])
+		t := x.T
+		if x.Kind == VSlice {
+			t = x.Arr
+		}
+		return scalar("(<= "+t+" "+fe.cntTerm(c.st)+")", SBool, boolT)
 	case "held": // held(lockref)
 		x := c.eval(e.Kids[0])
 		arr := c.heapTermCtx("G_held", arraySort([]string{SInt}, SBool))
